@@ -190,6 +190,8 @@ def shape_list(tier):
     add(("or", ("and", G, T), ("cmp", "==", SA, ("lit", 0))), False)
     add(("and", ("cmp", "==", SA, ("a", y)), ("truthy", ("sa", y))), False)
     add(("and", T, ("cmp", "==", SA, ("a", y))), False)
+    add(("not", ("cmp", "==", ("fnv", x), ("lit", 0))), False)
+    add(("and", ("cmp", "<=", ("fnv", x), ("lit", 0)), X[1]), False)
     # conjunction chains inside an else-if, and an else-if whose sides mention the same variables in another order
     B_ = lambda v, op, i=0: ("cmp", op, ("b", v), ("lit", i))
     add(("or", ("and", ("and", X[1], B_(x, ">")), ("cmp", "<=", ("a", x), ("b", x))), X[0]))
